@@ -654,7 +654,8 @@ void d_string_erase(DString * baseString, size_t pos, size_t len) {
 			return;
 		}
 
-		if ((pos + len) >= baseString->currentStringLength) {
+		if (len >= baseString->currentStringLength - pos) {
+			// Erase to the end (also when pos + len would wrap around)
 			len = -1;
 		}
 
